@@ -97,8 +97,9 @@ type entKey struct {
 // accrual is what x/distribution credited to the module for one validator at one block
 // start, together with the positions existing at that moment.
 type accrual struct {
-	coins sdk.Coins
-	frac  map[string]map[entKey]*big.Rat // asset -> position -> share of the validator's delegator shares
+	coins  sdk.Coins
+	frac   map[string]map[entKey]*big.Rat // asset -> position -> share of the validator's delegator shares
+	weight map[string]*big.Rat            // asset -> reward weight when the rewards accrued
 }
 
 type OracleC13 struct {
@@ -155,7 +156,7 @@ func eligibleAsset(s *Snap, v int, dn string) bool {
 // at the start of a block, with the positions (and their shares) existing at that moment:
 // rewards that accrued before a position existed or grew are not payable to the new stake.
 func (o *OracleC13) accrue(x *Exec, s *Snap, v int, coins sdk.Coins) {
-	a := accrual{coins: coins, frac: map[string]map[entKey]*big.Rat{}}
+	a := accrual{coins: coins, frac: map[string]map[entKey]*big.Rat{}, weight: map[string]*big.Rat{}}
 	n := 0
 	for _, dn := range s.AssetOrder {
 		if !eligibleAsset(s, v, dn) {
@@ -163,6 +164,7 @@ func (o *OracleC13) accrue(x *Exec, s *Snap, v int, coins sdk.Coins) {
 		}
 		tds := decRat(s.Vals[v].DelShares[dn])
 		a.frac[dn] = map[entKey]*big.Rat{}
+		a.weight[dn] = decRat(s.Assets[dn].RewardWeight)
 		for _, d := range s.Dels {
 			if d.V == v && d.Denom == dn {
 				a.frac[dn][entKey{d.D, d.V, d.Denom}] = new(big.Rat).Quo(decRat(d.Shares), tds)
@@ -195,19 +197,24 @@ func (o *OracleC13) deposit(x *Exec, s *Snap, v int) {
 	if len(accs) == 0 {
 		return
 	}
-	W := map[string]*big.Rat{}
+	// share of each asset staked on v, from the state in which the module withdraws
+	shareOnV := map[string]*big.Rat{}
 	for _, dn := range s.AssetOrder {
 		if !eligibleAsset(s, v, dn) {
 			continue
 		}
 		a := s.Assets[dn]
-		w := new(big.Rat).Mul(decRat(a.RewardWeight), decRat(s.Vals[v].ValShares[dn]))
-		w.Quo(w, decRat(a.TotalValidatorShares))
-		if w.Sign() > 0 {
-			W[dn] = w
-		}
+		shareOnV[dn] = new(big.Rat).Quo(decRat(s.Vals[v].ValShares[dn]), decRat(a.TotalValidatorShares))
 	}
 	for _, ac := range accs {
+		// a weight change (decay or governance) affects only rewards received afterwards: the
+		// split uses the reward weights in force when the rewards accrued
+		W := map[string]*big.Rat{}
+		for dn, sh := range shareOnV {
+			if w0 := ac.weight[dn]; w0 != nil && w0.Sign() > 0 {
+				W[dn] = new(big.Rat).Mul(w0, sh)
+			}
+		}
 		total := new(big.Rat)
 		for dn := range ac.frac {
 			if W[dn] != nil {
